@@ -214,8 +214,16 @@ void push_orphan_list(
   auto* tail = list;
   while (tail->next != nullptr) tail = tail->next;
 
+  UNODB_DETAIL_VERIF_POINT(UNODB_DETAIL_VERIF_QSBR_ORPHAN_LOAD, &orphan_list);
   tail->next = orphan_list.load(std::memory_order_acquire);
   while (true) {
+#ifdef UNODB_DETAIL_VERIF_HOOKS
+    UNODB_DETAIL_VERIF_POINT(UNODB_DETAIL_VERIF_QSBR_ORPHAN_RMW, &orphan_list);
+    if (UNODB_DETAIL_VERIF_BUGGIFY(7)) {
+      tail->next = orphan_list.load(std::memory_order_acquire);
+      continue;
+    }
+#endif
     if (UNODB_DETAIL_LIKELY(orphan_list.compare_exchange_weak(
             tail->next, list, std::memory_order_acq_rel,
             std::memory_order_acquire)))
@@ -415,6 +423,8 @@ void qsbr::unregister_thread(std::uint64_t quiescent_states_since_epoch_change,
         // LCOV_EXCL_START
         // A thread has registered in the meantime and this thread is no longer
         // the one to advance the epoch: give the orphans back.
+        UNODB_DETAIL_VERIF_PROBE(
+            UNODB_DETAIL_VERIF_PROBE_UNREGISTER_PREPARED_NOT_ADVANCING);
         push_orphan_list(orphaned_previous_interval_dealloc_requests,
                          orphaned_previous_requests);
         push_orphan_list(orphaned_current_interval_dealloc_requests,
